@@ -14,7 +14,8 @@ QUICK_C08 = ['update-tmp-otherfs', 'init-argon', 'add-user-scrypt', 'add-user-no
 MUT_C09 = [x for x in MUT_C08 if 'tmp-is-file' not in x and 'dangling' not in x] + ['setadmin-up', 'setadmin-down', 'setadmin-same', 'remove-user', 'remove-admin', 'remove-nonexistent']
 QUICK_C09 = ['update-hashfile-symlink', 'update-tmp-otherfs', 'init-scrypt', 'add-user-argon', 'add-admin', 'update-aux100', 'update-aux5k', 'update-aux-crlf-nonl', 'setadmin-up', 'setadmin-down', 'remove-user', 'remove-admin', 'remove-nonexistent']
 FAIL_SEM = ['add-existing', 'update-nonexistent', 'setadmin-nonexistent', 'init-nonempty', 'add-user-tmp-is-file', 'update-tmp-is-file', 'update-tmp-dangling-symlink']
-RO = ['ro-auth-ok', 'ro-auth-wrong', 'ro-auth-upgradeable', 'ro-auth-nonexistent', 'ro-exists', 'ro-list', 'ro-listfull', 'ro-check']
+RO = ['ro-auth-ok', 'ro-auth-wrong', 'ro-auth-upgradeable', 'ro-auth-nonexistent', 'ro-exists', 'ro-list', 'ro-listfull', 'ro-check',
+      'ro-auth-empty-reservation', 'ro-auth-empty-admin-reservation', 'ro-exists-empty-reservation', 'ro-list-residue', 'ro-listfull-residue', 'ro-check-residue', 'ro-auth-ok-residue']
 
 BOUNDARY = {'openat', 'write', 'pwrite64', 'copy_file_range', 'fsync', 'fdatasync', 'renameat', 'renameat2', 'rename',
             'unlinkat', 'unlink', 'mkdirat', 'mkdir', 'close', 'ftruncate', 'linkat', 'fchmod'}
